@@ -836,21 +836,22 @@ def _c15():
         io_h("c15::read_frame_second", "same for a 13-byte zero-data frame line (= the rest of a stream after a first frame was read: back-to-back frames)", line=13),
         io_h("c15::read_garbage_empty_line", "literal empty line + 4 symbolic bytes (may contain line feeds): exactly 1 byte consumed, InvalidFrame carries the line", line=1),
         io_h("c15::read_garbage_short", "literal 'hello' line + 4 symbolic bytes: exactly 6 bytes consumed, InvalidFrame carries exactly the line", line=6),
+        io_h("c15::read_garbage_leading_bytes", "a well-formed frame preceded by a stray byte on the same line + 3 symbolic bytes: consumed to the LF, rejected", line=14),
         io_h("c15::read_garbage_bare_lf_frame", "a frame terminated by a bare LF + 3 symbolic bytes: consumed to the LF, rejected", line=12),
         io_h("c15::read_hard_error_first", "valid 15-byte frame line; reader fails hard at call 0: FrameError::Io", fault="read@0", timeout=1500),
         io_h("c15::read_hard_error_mid", "reader fails hard at call 7", fault="read@7", timeout=1500),
         io_h("c15::read_hard_error_last", "reader fails hard at call 14", tier="thorough", fault="read@14", timeout=1500),
-        io_h("c15::write_fragmented_n2", "Frame::write of ANY frame with 2 data bytes (address, type, data symbolic) to a sink accepting 1..=n bytes per call (symbolic): delivered bytes = encoding + CRLF exactly once, in order", data_len=2, unwind=21),
-        io_h("c15::write_fragmented_n1", "Frame::write, 1 symbolic data byte, symbolic fragmentation", data_len=1, unwind=19),
-        io_h("c15::write_fragmented_n3", "Frame::write, 3 symbolic data bytes, symbolic fragmentation", tier="thorough", data_len=3, unwind=23, timeout=3000),
+        io_h("c15::write_bytewise_n1", "Frame::write of ANY frame with 1 data byte (address, type, data symbolic) to a sink that accepts exactly one byte per call: delivered bytes = encoding + CRLF exactly once, in order", data_len=1, unwind=19),
+        io_h("c15::write_bytewise_n3", "same with 3 symbolic data bytes", data_len=3, unwind=23),
+        io_h("c15::write_fragmented_n1", "Frame::write, 1 symbolic data byte, sink accepts a SYMBOLIC 1..=n bytes per call (every fragmentation)", tier="thorough", data_len=1, unwind=19, timeout=2400),
         io_h("c15::write_hard_error_first", "Frame::write to a one-byte-per-call sink that fails hard at call 0: Err(Io), never Ok", fault="write@0", timeout=1500),
         io_h("c15::write_hard_error_second", "sink fails hard at call 1 (after one byte was delivered)", fault="write@1", timeout=1500),
     ]
     return Prop(
         "C15",
         ["Frame::read::<SymReader>", "Frame::write::<SymWriter>", "std BufReader::with_capacity / read_until / Write::write_all (executed as compiled)", "Frame::from_bytes", "Frame::to_bytes_with_newline"],
-        "reads: literal lines (valid frames of 15 and 13 bytes - one read each, back-to-back by composition over the stream position -, empty line, short garbage, bare-LF frame) followed by SYMBOLIC stray bytes, greedy reader, hard failure at calls 0/7/14; writes: any frame with 1, 2 (quick) or 3 (thorough) symbolic data bytes, every fragmentation of the sink, hard failure at call 0 or 1",
-        "symbolic LINE contents (std's read_until forks at every byte that might be a line feed and exhausts CBMC; the line is therefore literal and only what follows it is symbolic); Interrupted reads/writes (std's retry loop together with io::Error's bit-packed representation did not finish under CBMC within the cap); longer frames",
+        "reads: literal lines (valid frames of 15 and 13 bytes - one read each, back-to-back by composition over the stream position -, empty line, short garbage, bare-LF frame) followed by SYMBOLIC stray bytes, greedy reader, hard failure at calls 0/7/14; writes: any frame with 1 or 3 symbolic data bytes to a one-byte-per-call sink (quick); every fragmentation for 1 data byte (thorough), every fragmentation of the sink, hard failure at call 0 or 1",
+        "symbolic LINE contents (std's read_until forks at every byte that might be a line feed and exhausts CBMC; the line is therefore literal and only what follows it is symbolic); Interrupted reads/writes (std's retry loop together with io::Error's bit-packed representation did not finish under CBMC within the cap); longer frames (writes of frames with 2 or more data bytes under symbolic fragmentation did not finish within the cap)",
         ["regex crate -> stand-in (contract mode)"],
         IO_ASSUME,
         ["c15::"],
@@ -927,3 +928,83 @@ def _c18():
 PROPS["C15"] = _c15()
 PROPS["C16"] = _c16()
 PROPS["C18"] = _c18()
+
+
+# ------------------------------------------------------------------------------------------- C08
+def _c08():
+    def h(name, desc, tier="quick", ilen=16, p=1, timeout=2400, mem=8, **params):
+        return H("c08::" + name, desc, tier=tier, unwind=max(5, p + 2, (ilen + 15) // 16 + 2), unwindset=ctl_rules(ilen) + [("bytes_eq|inv_holds|any_inv_sign", ilen + 4)], params=params, timeout=timeout, mem_gb=24, mem_expect=mem)
+
+    prior = "virtual sign in ANY state satisfying the representation invariant (13 protocol states, symbolic address = controller's address, flip style, chunk counter, recorded type, all bytes)"
+    hs = [
+        h("configure_blank_dash", prior + " with blank sizes; real Sign::configure as Max3000Dash30x7 over the real VirtualSignBus: Ok, ConfigReceived, type recorded, dimensions, no pages", type="Max3000Dash30x7", prior="0x0"),
+        h("configure_midtransfer_dash", prior + " configured 12x8 with a complete 16-byte page buffered (mid pixel transfer or parked in reset); configure as Max3000Dash30x7", type="Max3000Dash30x7", prior="12x8 pending 16"),
+        h("configure_withpage_horizon", prior + " configured 12x8 holding one stored page; configure as HorizonDash40x12", tier="thorough", type="HorizonDash40x12", prior="12x8 one page"),
+        h("configure_short_buffer_side", prior + " configured 30x7 with 32 of 48 bytes buffered; configure as Max3000Side90x7", tier="thorough", ilen=48, type="Max3000Side90x7", prior="30x7 pending 32"),
+        h("cin_blank_dash", prior + " with blank sizes; Sign::configure_if_needed: Ok; a ready sign is left alone, any other is freshly configured", type="Max3000Dash30x7", prior="0x0"),
+        h("cin_withpage_dash", prior + " 12x8 with one stored page; Sign::configure_if_needed", tier="thorough", type="Max3000Dash30x7", prior="12x8 one page"),
+        h("send_p0", "sign configured 12x8 in ANY page-accepting state (config received, pixels failed, page loaded/shown/in progress, showing pages); send_pages(no pages): Ok(style), no pages stored, loaded/showing state", p=0, pages=0),
+        h("send_p1", "same prior; send_pages(one 12x8 page, ALL 16 bytes symbolic): Ok(matching flip style); the sign holds exactly that page byte for byte; page-loaded (manual) / showing-pages (automatic)", pages=1),
+        h("send_p1_over_old", "prior additionally holds an old stored page; send_pages(one page) replaces it", pages=1, old_pages=1),
+        h("send_p2", "send_pages(two 12x8 pages, all bytes symbolic): both stored in order", tier="thorough", p=2, pages=2, timeout=5400),
+        h("send_p1_30x7", "sign configured 30x7; send_pages(one 48-byte page, three chunks)", tier="thorough", ilen=48, pages=1, timeout=5400, mem=12),
+        h("send_p2_30x7_over_old", "sign configured 30x7 holding an old page; send_pages(two 48-byte pages)", tier="thorough", ilen=48, p=2, pages=2, timeout=7200, mem=14),
+        h("show_loaded", "sign holding a page in ANY of page loaded / load in progress / shown / show in progress / showing pages; show_loaded_page: Ok; manual sign ends page-shown, automatic sign unchanged", op="show_loaded_page"),
+        h("load_next", "same prior; load_next_page: Ok; manual sign ends page-loaded, automatic unchanged", op="load_next_page"),
+    ]
+    return Prop(
+        "C08",
+        ["Sign::{configure, configure_if_needed, send_pages, show_loaded_page, load_next_page} (real)", "VirtualSignBus::process_message / VirtualSign::process_message (real)", "Page::from_bytes / as_bytes", "SignType::to_bytes / from_bytes / dimensions"],
+        "prior sign state: every invariant state in the listed size shapes; configure as Max3000Dash30x7 (quick), HorizonDash40x12 and Max3000Side90x7 (thorough); send_pages with 0-1 pages of 16 bytes quick, 2 pages and 48-byte pages thorough, all page bytes symbolic; both flip styles; show / load-next from every page state",
+        "other sign types and page sizes (the transfer code is size-generic; the 11 configuration blocks themselves are C19's subject); page lists longer than 2; more than one sign on the bus (C14)",
+        CTL_STUBS,
+        COMMON_ASSUME + ["prior states constrained only by vsign::inv_holds (proved inductive by C12)", "hook: VirtualSign::verif_from_parts / verif_parts", "Sign, bus and results are mem::forget-ed at the end (drop glue is not part of the property)"],
+        ["c08::"],
+        hs,
+    )
+
+
+PROPS["C08"] = _c08()
+
+
+# ------------------------------------------------------------------------------------------- C17
+def _c17():
+    hs = []
+    fw = [
+        ("fwd_hello_report", "Hello(3) line, bus answers ReportState(symbolic address, PageLoaded)", "quick"),
+        ("fwd_hello_silent", "Hello(3) line, bus stays silent: nothing written back, Ok", "quick"),
+        ("fwd_hello_buserr", "Hello(3) line, bus fails: OdkError::Bus, nothing written", "quick"),
+        ("fwd_query_report", "QueryState(3) line, bus answers a state report", "thorough"),
+        ("fwd_request_ack", "RequestOperation(3, StartReset) line, bus answers AckOperation(symbolic address, StartReset)", "quick"),
+        ("fwd_count_silent", "DataChunksSent(3) line (zero data bytes), silent bus", "quick"),
+        ("fwd_goodbye_silent", "Goodbye(3) line, silent bus", "thorough"),
+        ("fwd_lowercase_hello_report", "Hello(3) line written with lower-case hex digits", "thorough"),
+    ]
+    for n, d, t in fw:
+        hs.append(io_h("c17::" + n, "Odk<SerPort, RecBus>::process_message on the literal line + 3 symbolic stray bytes: " + d + "; forwarded exactly once as the right message; a frame is written back iff the bus replied and it is exactly the reply's encoding + CRLF", tier=t))
+    for n, d, t in [
+        ("bad_garbage", "'hello' line", "quick"),
+        ("bad_leading_byte", "a NUL byte before a well-formed frame on the same line", "quick"),
+        ("bad_leading_text", "'7F' before a well-formed frame on the same line", "thorough"),
+        ("bad_bare_lf", "a frame terminated by a bare LF", "thorough"),
+        ("bad_empty", "an empty line", "quick"),
+    ]:
+        hs.append(io_h("c17::" + n, "Odk::process_message on an undecodable line (" + d + "): OdkError::Communication, bus not touched, nothing written", tier=t))
+    # controller side of the wire (same harnesses as C16, re-discharged here so that C17 stands on its own)
+    for k, t in [(1, 13), (2, 8), (15, 13), (6, 13)]:
+        hs.append(io_h("c16::c16_k%d_t%d" % (k, t), "controller side of the wire: SerialSignBus::process_message for a %s message with reply line '%s' waiting (see C16)" % (KIND_NAME(k), TAPE_DESC[t]), kind=KIND_NAME(k)))
+    hs.append(io_h("c16::c16_data16", "controller side of the wire: a 16-byte data chunk is written as exactly its encoding, nothing read", data_len=16))
+    return Prop(
+        "C17",
+        ["Odk::<SerPort, RecBus>::process_message", "Odk::try_new", "SerialSignBus::<SerPort>::process_message", "Frame::read / Frame::write", "Message::from(Frame) / Frame::from(Message)"],
+        "compositional: (bridge) literal frame lines for hello, state query, operation request, chunk count, goodbye and a lower-case variant, with a bus that replies (symbolic address), stays silent or fails; five kinds of undecodable line incl. a well-formed frame preceded by stray bytes; (controller side) C16's harnesses; (codec) C01/C03/C05: message -> frame -> text -> frame -> message is the identity. Together: each message has the same effect on the bus and yields the same reply over the wire as directly",
+        "an end-to-end symbolic run of controller + serial bus + bridge + virtual bus in one query (two codecs and std's read_until in one formula exhaust CBMC; symbolic line contents fork read_until at every byte); the equivalence of whole conversations follows from the per-message lemmas by induction and is argued, not machine-checked",
+        SER_STUBS,
+        IO_ASSUME + ["RecBus: harness-side bus recording kind and address field of what it receives"],
+        ["c17::"],
+        hs,
+        needs_regex=True,
+    )
+
+
+PROPS["C17"] = _c17()
